@@ -13,7 +13,9 @@
  *   set <i> <a> <b> <s> <c>   obj->setv(...)  (vi, va, vb, vs+vis (static), vc; vo = the object itself)
  *   so <zeros>           save_object("/c16/data/sav", zeros):   so <ret> / file <hex, canonical> (or file none)
  *   use obj|many         the object the following commands work on (/c16/obj: 7 variables, /c16/many: 24)
- *   setm a[v0,..]        many->setall(array)
+ *   useg <path>          load a generated program (written by the plugin from the `prog` lines of the case), work on
+ *                        its variables by slot;  prints  tree <the real program tree, see dump_prog>
+ *   setm a[v0,..]        many->setall(array) / assignment to the slots of a generated program
  *   son <hexname> <zeros> <hexpath>   save_object(name, zeros); prints  so <ret> made=<does <path> exist now>
  *   wf <hex>             write the save file directly
  *   rm                   remove the save file
@@ -33,6 +35,7 @@
 #include <sys/stat.h>
 #include <stdint.h>
 #include "lpc/class.h"
+#include "lpc/program.h"
 
 #define SAVE_LPC "/c16/data/sav"
 #define SAVE_FILE "c16/data/sav.o"
@@ -535,6 +538,37 @@ static int c16_apply (const char *fn, int nargs, svalue_t * args, svalue_t * ret
 
 static const char *c16_objpath = "/c16/obj";
 
+static int c16_generic = 0;	/* the object under test is a generated program: variables are set / read by slot */
+
+/* the REAL program tree of an object, one line:
+ *   P(<name>;<num_variables_defined>;<num_variables_total>;V[<name>:<type flags>,..];I[<type_mod>:<variable_index_offset>:P(..),..]) */
+static void dump_prog (sb_t * o, program_t * pr)
+{
+  char tmp[64];
+  sb_puts (o, "P(");
+  sb_puts (o, pr->name);
+  snprintf (tmp, sizeof tmp, ";%d;%d;V[", (int) pr->num_variables_defined, (int) pr->num_variables_total);
+  sb_puts (o, tmp);
+  for (int i = 0; i < pr->num_variables_defined; i++)
+    {
+      if (i)
+        sb_puts (o, ",");
+      sb_puts (o, pr->variable_table[i]);
+      snprintf (tmp, sizeof tmp, ":%d", (int) pr->variable_types[i]);
+      sb_puts (o, tmp);
+    }
+  sb_puts (o, "];I[");
+  for (int i = 0; i < pr->num_inherited; i++)
+    {
+      if (i)
+        sb_puts (o, ",");
+      snprintf (tmp, sizeof tmp, "%d:%d:", (int) pr->inherit[i].type_mod, (int) pr->inherit[i].variable_index_offset);
+      sb_puts (o, tmp);
+      dump_prog (o, pr->inherit[i].prog);
+    }
+  sb_puts (o, "])");
+}
+
 static void ensure_obj (void)
 {
   if (c16_ob)
@@ -689,6 +723,8 @@ static const char *classify (const char *old, size_t on, const char *nw, size_t 
   const char *r;
   if (!d)
     r = "none";
+  else if (old && nw && n == on && n == nn && !memcmp (d, old, n) && !memcmp (d, nw, n))
+    r = "both";			/* the save would not change the file: old and new contents coincide */
   else if (old && n == on && !memcmp (d, old, n))
     r = "old";
   else if (nw && n == nn && !memcmp (d, nw, n))
@@ -863,7 +899,25 @@ static int c16_cmd (char *line)
       /* use obj | many : the object the following commands work on */
       c16_objpath = !strcmp (tok[1], "many") ? "/c16/many" : "/c16/obj";
       c16_ob = 0;
+      c16_generic = 0;
       ensure_obj ();
+      return 1;
+    }
+  if (!strcmp (tok[0], "useg") && n == 2)
+    {
+      /* useg <path>: load a generated program, work on it by slot, dump its real program tree */
+      static char path[512];
+      snprintf (path, sizeof path, "%s", tok[1]);
+      c16_objpath = path;
+      c16_ob = 0;
+      c16_generic = 1;
+      ensure_obj ();
+      sb_t o = { 0, 0, 0 };
+      sb_puts (&o, "");
+      dump_prog (&o, c16_ob->prog);
+      fprintf (stderr, "VL tree %s\n", o.b);
+      fflush (stderr);
+      free (o.b);
       return 1;
     }
   if (!strcmp (tok[0], "setm") && n == 2)
@@ -874,6 +928,17 @@ static int c16_cmd (char *line)
       if (!parse_val (&p, &a) || *p)
         {
           vh_out ("badval");
+          return 1;
+        }
+      if (c16_generic)
+        {
+          /* assign the variable slots of the object directly */
+          if (a.type != T_ARRAY || a.u.arr->size != c16_ob->prog->num_variables_total)
+            vh_out ("seterr");
+          else
+            for (int i = 0; i < a.u.arr->size; i++)
+              assign_svalue (&c16_ob->variables[i], &a.u.arr->item[i]);
+          free_svalue (&a, "c16");
           return 1;
         }
       if (c16_apply ("setall", 1, &a, &r))
@@ -942,7 +1007,22 @@ static int c16_cmd (char *line)
         vh_out ("roerr");
       else
         vh_out ("ro %d", (int) r.u.number);
-      if (!c16_apply ("getv", 0, 0, &r))
+      if (c16_generic)
+        {
+          sb_t o = { 0, 0, 0 };
+          sb_puts (&o, "a[");
+          for (int i = 0; i < c16_ob->prog->num_variables_total; i++)
+            {
+              if (i)
+                sb_puts (&o, ",");
+              pv (&o, &c16_ob->variables[i], 1);
+            }
+          sb_puts (&o, "]");
+          fprintf (stderr, "VL vars %s\n", o.b);
+          fflush (stderr);
+          free (o.b);
+        }
+      else if (!c16_apply ("getv", 0, 0, &r))
         {
           sb_t o = { 0, 0, 0 };
           sb_puts (&o, "");
